@@ -87,6 +87,7 @@ func init() {
 		runs := runsOf(lifeRuns(tier), o, MonFlags{})
 		d, b, m := bump(tier, 7, 4, 3)
 		runs = append(runs, RunSpec{Name: "fees", Sc: scFees(paramSet("0.1", "0.001"), false, d, b, m), Oracles: o})
+		runs = append(runs, RunSpec{Name: "huge-values", Sc: scHuge(paramSet("0.1", "0.001"), d-1, b, 2), Oracles: o})
 		return runs
 	}})
 	register(&CheckSpec{Prop: "C02", Runs: func(tier string) []RunSpec {
@@ -94,6 +95,7 @@ func init() {
 		runs := runsOf(lifeRuns(tier), o, MonFlags{})
 		d, b, m := bump(tier, 7, 4, 3)
 		runs = append(runs, RunSpec{Name: "fees", Sc: scFees(paramSet("0.5", "0.001"), false, d, b, m), Oracles: o})
+		runs = append(runs, RunSpec{Name: "huge-values", Sc: scHuge(paramSet("0.1", "0.001"), d-1, b, 2), Oracles: o})
 		if tier == "thorough" {
 			for _, tax := range []string{"0", "0.34", "0.99"} {
 				ps := paramSet(tax, "0.5")
@@ -167,6 +169,7 @@ func init() {
 			{Name: "price-time+subunit", Sc: withFunds(scPrice(paramSet("0.1", "0.001"), "p4t", "p1v", []Template{tRep2, tInf}, po, d, b, m), 30, 5), Oracles: o, Mon: MonFlags{Vol: true}},
 		}
 		runs = append(runs, RunSpec{Name: "two-services-one-provider", Sc: scTwoServices(paramSet("0.1", "0.001"), AlphaOpts{RespKinds: []string{"ok"}, BindOps: []Action{actUpdate("ab", "P1", "O1", 0, "p3vv", 0), actUpdate("a", "P1", "O1", 0, "p1t", 0)}}, d, b, m), Oracles: o, Mon: MonFlags{Vol: true}})
+		runs = append(runs, RunSpec{Name: "huge-values", Sc: scHuge(paramSet("0.1", "0.001"), d-2, b-1, 2), Oracles: o, Mon: MonFlags{Vol: true}})
 		runs = append(runs, runsOf(lifeRuns(tier), o, MonFlags{Vol: true})...)
 		return runs
 	}, Pure: priceGrid})
@@ -191,6 +194,8 @@ func init() {
 		// contexts when a batch fails): keeper calls made from within end-of-block and response processing
 		runs = append(runs, RunSpec{Name: "mod-reentrant", Sc: scModReentrant(defaultParams(), []Template{tMod1, tMod2, tModPoor},
 			AlphaOpts{RespKinds: []string{"ok", "bad"}, ModOps: []string{"mpause", "mstart"}}, d, b, m), Oracles: []Oracle{oracleC09{}}})
+		runs = append(runs, RunSpec{Name: "mod-kill-in-response-callback", Sc: scModSelfKill(defaultParams(), []Template{tMod1, tMod2},
+			AlphaOpts{RespKinds: []string{"ok", "bad"}, ModOps: []string{"mpause", "mstart"}}, d-1, b-1, m), Oracles: []Oracle{oracleC09{}}})
 		return runs
 	}})
 	register(&CheckSpec{Prop: "C10", Runs: func(tier string) []RunSpec {
@@ -215,6 +220,9 @@ func init() {
 			{Name: "frequency-boundaries", Sc: withFunds(scLife(paramSet("0.1", "0.001"), []Template{tHuge, tMax, tBig, tOneTot}, AlphaOpts{CtxOps: []string{"pause", "start"}}, 5, 4, 2), 40, 5), Oracles: o},
 		}
 		runs = append(runs, runsOf(lifeRuns(tier), o, MonFlags{})...)
+		// the owning module starts a context again from inside the "paused: insufficient balances" state callback
+		runs = append(runs, RunSpec{Name: "mod-restart-in-callback", Sc: scModRestart(defaultParams(), []Template{tMod1, tModPoor},
+			AlphaOpts{RespKinds: []string{"ok"}, ModOps: []string{"mpause", "mstart"}}, d-1, b-1, m), Oracles: o, Mon: MonFlags{Restart: true}})
 		return runs
 	}})
 	register(&CheckSpec{Prop: "C12", Runs: func(tier string) []RunSpec {
@@ -233,7 +241,8 @@ func init() {
 		o := []Oracle{oracleC13{}}
 		runs := []RunSpec{{Name: "fees", Sc: scFees(paramSet("0.1", "0.001"), true, d, b, m), Oracles: o},
 			{Name: "fees-after-refund", Sc: scFeesRefund(paramSet("0.1", "0.001"), d-1, b, m-1), Oracles: o},
-			{Name: "fees-provider-is-owner", Sc: scFeesSelf(paramSet("0.1", "0.001"), d-1, b, m), Oracles: o}}
+			{Name: "fees-provider-is-owner", Sc: scFeesSelf(paramSet("0.1", "0.001"), d-1, b, m), Oracles: o},
+			{Name: "fees-provider-lengths", Sc: scFeesLengths(paramSet("0.1", "0.001"), d-1, b, m), Oracles: o}}
 		runs = append(runs, runsOf(lifeRuns(tier), o, MonFlags{}, "life-main", "life-control", "mod-main")...)
 		return runs
 	}})
@@ -243,6 +252,23 @@ func init() {
 		runs := []RunSpec{
 			{Name: "bind-ops+slash", Sc: scBind(defaultParams(), bindOpsFull(), []Template{tSlash}, []string{"bad"}, d, b, m), Oracles: o},
 			{Name: "bind-ops+two-failures", Sc: scBind(paramSet("0.1", "0.25"), bindOpsSmall(), []Template{tSlash2}, []string{"bad", "ok"}, d+1, b+1, 2), Oracles: o},
+		}
+		// one provider serving two services with different prices: each binding's minimum follows its own price
+		two := scBind(paramSet("0.1", "0.1"), []Action{actBind("a", "P1", "O1", 40, "p20", 1), actBind("ab", "P1", "O1", 10, "p1", 1),
+			actBind("a", "P1", "O1", 10, "p1", 1), actBind("ab", "P1", "O1", 40, "p20", 1), actUpdate("a", "P1", "O1", 0, "", 2), actDisable("a", "P1", "O1"), actEnable("a", "P1", "O1", 0)},
+			[]Template{tSlash}, []string{"bad"}, d+1, b, m)
+		two.Name, two.Setup = "S-BIND(two services)", []Action{actDefine("a", "AU"), actDefine("ab", "AU")}
+		runs = append(runs, RunSpec{Name: "two-services-one-provider", Sc: two, Oracles: o})
+		// governance raises the minimum deposit / the multiple while bindings exist: later operations are judged under the new values
+		for _, g := range []ParamSet{func() ParamSet { p := defaultParams(); p.MinDeposit, p.Name = 50, "gov-min-deposit-50"; return p }(),
+			func() ParamSet { p := defaultParams(); p.Multiple, p.Name = 4, "gov-multiple-4"; return p }()} {
+			sc := scBind(defaultParams(), nil, []Template{tSlash}, []string{"bad"}, d, b, m)
+			sc.Alpha = lifeAlpha(AlphaOpts{RespKinds: []string{"bad"}, ParamChanges: []ParamSet{g}, BindOps: []Action{
+				actBind("a", "P1", "O1", 10, "p1", 1), actBind("a", "P1", "O1", 40, "p20", 1),
+				actUpdate("a", "P1", "O1", 10, "", 0), actUpdate("a", "P1", "O1", 40, "", 0), actUpdate("a", "P1", "O1", 0, "", 2), actUpdate("a", "P1", "O1", 0, "p1", 0),
+				actDisable("a", "P1", "O1"), actEnable("a", "P1", "O1", 0), actEnable("a", "P1", "O1", 40)}})
+			sc.Name, sc.GovRaisesMinimum = "S-BIND("+g.Name+")", true
+			runs = append(runs, RunSpec{Name: g.Name, Sc: sc, Oracles: o})
 		}
 		// (the msvc run is left out: its module-service binding is installed by the host chain with a zero deposit, not by a message)
 		runs = append(runs, runsOf(lifeRuns(tier), o, MonFlags{}, "life-main", "life-caplow-flipped", "price-subunit+zero", "mod-main")...)
@@ -254,7 +280,12 @@ func init() {
 		return runs
 	}})
 	register(&CheckSpec{Prop: "C16", Runs: func(tier string) []RunSpec {
-		return runsOf(lifeRuns(tier), []Oracle{oracleC16{}}, MonFlags{Kill: true})
+		d, b, m := bump(tier, 8, 5, 2)
+		runs := runsOf(lifeRuns(tier), []Oracle{oracleC16{}}, MonFlags{Kill: true})
+		// contexts killed by their owning module from inside a callback, in the block in which their batch expires
+		runs = append(runs, RunSpec{Name: "mod-reentrant", Sc: scModReentrant(defaultParams(), []Template{tMod1, tMod2, tModPoor},
+			AlphaOpts{RespKinds: []string{"ok", "bad"}, ModOps: []string{"mpause", "mstart"}}, d, b, m), Oracles: []Oracle{oracleC16{}}, Mon: MonFlags{Kill: true}})
+		return runs
 	}})
 	register(&CheckSpec{Prop: "C05", Runs: func(tier string) []RunSpec {
 		d := 0
@@ -303,6 +334,14 @@ func init() {
 			{Name: "names-queries", Sc: scNames(defaultParams(), 5+d, 3, 4), Oracles: o, Post: queryPost},
 			{Name: "life-queries", Sc: scLife(defaultParams(), []Template{tOne, tRep2, tLong}, lo, 6+d, 4, 2), Oracles: o, Post: queryPost},
 			{Name: "fees-queries", Sc: scFees(paramSet("0.1", "0.001"), false, 4+d, 3, 3), Oracles: o, Post: queryPost},
+			{Name: "fees-queries-base-denom-changed", Sc: func() *Scenario {
+				// the records written before a change of the BaseDenom parameter are still what the queries must return
+				g := paramSet("0.1", "0.001")
+				g.BaseDenom, g.Name = "foo", "gov-base-denom-foo"
+				sc := scFees(paramSet("0.1", "0.001"), false, 4+d, 3, 3)
+				sc.Alpha = lifeAlpha(AlphaOpts{RespKinds: []string{"ok"}, Withdraw: []string{"O1:P1"}, ParamChanges: []ParamSet{g}})
+				return sc
+			}(), Oracles: o, Post: queryPost},
 			{Name: "mod-queries", Sc: scMod(defaultParams(), []Template{tMod1, tModPoor}, AlphaOpts{RespKinds: []string{"ok"}, ModOps: []string{"mpause", "mkill"}}, 6+d, 4, 2), Oracles: o, Post: queryPost},
 		}
 	}})
@@ -324,7 +363,7 @@ func init() {
 			d = 2
 		}
 		o := []Oracle{oracleC19{}}
-		mainO := AlphaOpts{RespKinds: []string{"ok", "bad"}, CtxOps: []string{"pause", "kill"}, Updates: []CtxUpdate{updTimeout3}, Withdraw: []string{"O1:P1"}, SetW: []string{"O1:W1"},
+		mainO := AlphaOpts{RespKinds: []string{"ok", "bad"}, CtxOps: []string{"pause", "kill"}, Updates: []CtxUpdate{updTimeout3}, Withdraw: []string{"O1:P1"}, SetW: []string{"O1:W1", "XX:W1"}, // XX owns no binding
 			BindOps: []Action{actDisable("a", "P1", "O1"), actRefund("a", "P1", "O1"), actUpdate("a", "P2", "O2", 0, "p5", 0)}}
 		return []RunSpec{
 			{Name: "life-export-points", Sc: scLife(defaultParams(), []Template{tOne, tRep2, tPoor}, mainO, 6+d, 4, 2), Oracles: o, Post: genesisPost},
@@ -333,7 +372,7 @@ func init() {
 			{Name: "names-export-points", Sc: scNames(defaultParams(), 5+d, 3, 4), Oracles: o, Post: genesisPost},
 			{Name: "mod-export-points", Sc: scMod(defaultParams(), []Template{tMod1, tModPoor}, AlphaOpts{RespKinds: []string{"ok"}, ModOps: []string{"mpause", "mkill"}}, 6+d, 4, 2), Oracles: o, Post: genesisPost},
 		}
-	}})
+	}, Pure: paramGrid})
 	register(&CheckSpec{Prop: "C20", Runs: func(tier string) []RunSpec {
 		d := 0
 		if tier == "thorough" {
@@ -350,6 +389,7 @@ func init() {
 			RunSpec{Name: "fees-panics", Sc: scFees(paramSet("0.1", "0.001"), true, 6+d, 3, 3), Oracles: o, DetCheck: true},
 			RunSpec{Name: "bind-panics", Sc: scBind(defaultParams(), bindOpsFull(), []Template{tSlash2}, []string{"bad"}, 6+d, 4, 3), Oracles: o, DetCheck: true},
 			RunSpec{Name: "names-panics", Sc: scNames(defaultParams(), 6+d, 3, 4), Oracles: o, DetCheck: true},
+			RunSpec{Name: "huge-values", Sc: scHuge(defaultParams(), 6+d, 4, 2), Oracles: o, DetCheck: true},
 			RunSpec{Name: "genesis-import-orders", Sc: withFunds(scLife(paramSet("0.1", "0.001"), []Template{tRep2, tInf}, AlphaOpts{CtxOps: []string{"pause"}, SetW: []string{"O1:W1", "O2:W1"}}, 4+d, 2, 4), 40, 5),
 				Oracles: o, Post: mapGenesisPost, Conform: -1},
 		)
